@@ -1,38 +1,64 @@
 """C21 Retry policy retries exactly the transient failures.
 
-Decides (from the syntax tree of hailtop/utils/utils.py, nothing is run):
-  R1  decision table of the `except Exception` handler of the retry loops, over every valuation of
-      the classifier predicates and every failure index: re-raise iff the statement says so
-  R2  per failure: `tries` incremented exactly once; the value slept on is delay_ms_for_try(tries)/1000
+Decides (from the syntax trees of hailtop/utils/utils.py, hailtop/httpx.py and the constructor sites of the classified exceptions; nothing is run):
+  R1  decision table of the `except Exception` handler of the retry loops, over every valuation of the classifier predicates and every
+      order class of the counters (tries, a dedicated limited-retry budget) against the constants they are compared with: re-raise iff the
+      statement says so; a dedicated budget counter is monotone (only `+= 1` inside the loop: no reset, no decrement)
+  R2  per failure: `tries` incremented exactly once; on every retried path the value slept on is, by an interval + unit analysis over all
+      definitions reaching the sleep, exactly delay_ms_for_try(tries)/1000 computed after the increment - never above the maximum, never
+      mixing ms with s, never a value read off the exception unless clamped inside the documented band
   R3  delay_ms_for_try: interval evaluation for every try count -> jitter band [C//2, C] capped at max
-  R4  classifiers follow __cause__ and end in `return False`
+  R4  classifiers follow __cause__ (and nothing else: not __context__) and end in `return False`
   R5  the public wrappers delegate to the analysed loop
+  R6  producer/consumer agreement: every attribute a classifier reads off a repository-defined exception class (body, status, error_codes)
+      is written at every constructor site from the full response value (no truncation / stripping / case folding / lenient decoding)
+  R7  whatever is_rate_limit_error accepts is_transient_error accepts too (the sync helper consults only the latter), over the finite
+      abstract domain of exception class x status class x body tokens
 Does not decide: which exception classes count as transient (a policy table).
 """
 from __future__ import annotations
 
 import ast
-from typing import Dict, List, Optional
+from fractions import Fraction
+from typing import Dict, List, Optional, Sequence, Set, Tuple
 
-from engines import absdom, pyfacts as pf
-from engines.common import AnalysisError, Ctx
+from engines import absdom, c2021facts as cf, pyfacts as pf
+from engines.common import AnalysisError, Ctx, read_repo
 
 META = dict(
     category='proof',
-    text='Exhaustive truth table of the extracted retry handlers over all classifier valuations x failure indices, and exhaustive interval '
-         'evaluation of the back-off function for every try count; every row/try count is an obligation and all are discharged by our own '
-         'evaluator over the syntax tree. This is the right level because the retry decision depends only on four predicates and a counter.',
-    note='Trusted: CPython ast; the evaluator in engines/absdom.py; randrange/asyncio.sleep semantics. Not decided: which exception classes are transient.',
-    technique='static analysis: predicate-abstraction truth table + interval abstract interpretation over the AST',
+    text='Exhaustive truth table of the extracted retry handlers over all classifier valuations x order classes of the counters, exhaustive interval '
+         'evaluation of the back-off function for every try count, interval + unit abstract evaluation of every definition reaching the sleep, a closed '
+         'lossless/lossy table over the dataflow from the HTTP response to the classified exception fields, and an exhaustive implication check between '
+         'the classifiers over a finite abstract domain; every row is an obligation and all are discharged by our own evaluators over the syntax tree.',
+    note='Trusted: CPython ast; the evaluators in engines/absdom.py and engines/c2021facts.py; randrange/asyncio.sleep semantics; aiohttp.ClientResponseError '
+         'stores status/message/headers keyword arguments unchanged. Not decided: which exception classes are transient.',
+    technique='static analysis: predicate-abstraction truth table + interval/unit abstract interpretation + dataflow classification over the AST',
     design_ref='DESIGN.md §3 C21',
 )
 
 F = 'hail/python/hailtop/utils/utils.py'
 LIMITED_RETRIES = 5  # from the statement: "give up after at most five retries on limited-retry errors"
+PREDS = ['is_limited_retries_error', 'is_rate_limit_error', 'is_transient_error']
+CLASSIFIERS = ('is_transient_error', 'is_limited_retries_error', 'is_rate_limit_error')
+SLEEPS = ('asyncio.sleep', 'time.sleep')
+
+
+def _int_const(m: pf.Module, e: ast.AST) -> Optional[int]:
+    if isinstance(e, ast.Constant) and isinstance(e.value, int) and not isinstance(e.value, bool):
+        return e.value
+    if isinstance(e, ast.Name):
+        try:
+            v = m.global_assign(e.id)
+        except AnalysisError:
+            return None
+        if isinstance(v, ast.Constant) and isinstance(v.value, int) and not isinstance(v.value, bool):
+            return v.value
+    return None
 
 
 def _retry_loop(ctx: Ctx, fn: pf.FuncDef, name: str):
-    """Recognise   tries = 0; while True: try: return [await] f(...) except ...: ... ; <sleep>"""
+    """Recognise   tries = 0; while True: try: return [await] f(...) except ...: ... ; <assignments>; <sleep>"""
     loops = [st for st in fn.body if isinstance(st, ast.While)]
     ctx.need(len(loops) == 1, f'{name}: expected exactly one top-level while loop')
     loop = loops[0]
@@ -44,12 +70,30 @@ def _retry_loop(ctx: Ctx, fn: pf.FuncDef, name: str):
     return loop, tr, loop.body[1:]
 
 
-def _check_loop(ctx: Ctx, m: pf.Module, name: str, sleep_kind: str, limited: bool):
+def _sleep_call(st: ast.stmt) -> Optional[ast.Call]:
+    call = st.value if isinstance(st, ast.Expr) else None
+    if isinstance(call, ast.Await):
+        call = call.value
+    return call if isinstance(call, ast.Call) else None
+
+
+def _fmt(x) -> str:
+    if x in (cf.INF, -cf.INF):
+        return 'unbounded'
+    return f'{float(x):g}'
+
+
+def _check_loop(ctx: Ctx, m: pf.Module, name: str, limited: bool, de: cf.DelayEval, max_s: Fraction):
     fn = m.func(name)
     loop, tr, after = _retry_loop(ctx, fn, name)
-    # the initial value of tries
-    init = [st for st in fn.body if isinstance(st, ast.Assign) and pf.nsrc(st.targets[0]) == 'tries']
-    ctx.need(len(init) == 1 and isinstance(init[0].value, ast.Constant) and init[0].value.value == 0, f'{name}: `tries = 0` not found')
+    pre = [st for st in fn.body if st is not loop]
+    # counters initialised to a literal before the loop
+    inits: Dict[str, int] = {}
+    for st in pre:
+        if isinstance(st, ast.Assign) and len(st.targets) == 1 and isinstance(st.targets[0], ast.Name) and isinstance(st.value, ast.Constant) \
+                and isinstance(st.value.value, int) and not isinstance(st.value.value, bool):
+            inits[st.targets[0].id] = st.value.value
+    ctx.need(inits.get('tries') == 0, f'{name}: `tries = 0` not found')
 
     # handlers before `except Exception` must only re-raise and must not be broader than Exception
     exc_handler = None
@@ -64,112 +108,214 @@ def _check_loop(ctx: Ctx, m: pf.Module, name: str, sleep_kind: str, limited: boo
                   f'handler `except {tname}` ahead of `except Exception` must only re-raise', m.path, h.lineno)
     ctx.need(exc_handler is not None, f'{name}: no `except Exception` handler')
     evar = exc_handler.name
+    cons = f'{F}::{name}::except Exception'
 
     atoms = absdom.collect_test_atoms(exc_handler.body)
-    classified: Dict[str, str] = {}
+    classified: Dict[str, Tuple[str, ...]] = {}
     free: List[str] = []
+    consts: List[int] = [LIMITED_RETRIES]
+    budgets: Set[str] = set()
     for a in atoms:
         k = absdom.atom_key(a)
-        if isinstance(a, ast.Call) and pf.dotted(a.func) in ('is_limited_retries_error', 'is_rate_limit_error', 'is_transient_error') \
-                and len(a.args) == 1 and isinstance(a.args[0], ast.Name) and a.args[0].id == evar:
-            classified[k] = pf.dotted(a.func)
-        elif isinstance(a, ast.Compare) and isinstance(a.left, ast.Name) and a.left.id == 'tries' and len(a.ops) == 1 \
-                and isinstance(a.comparators[0], ast.Constant) and isinstance(a.ops[0], (ast.LtE, ast.Lt, ast.Gt, ast.GtE)):
-            classified[k] = 'tries-bound'
+        if isinstance(a, ast.Call) and pf.dotted(a.func) in PREDS and len(a.args) == 1 and isinstance(a.args[0], ast.Name) and a.args[0].id == evar and not a.keywords:
+            classified[k] = ('pred', pf.dotted(a.func))
+        elif isinstance(a, ast.Compare) and isinstance(a.left, ast.Name) and a.left.id in inits and len(a.ops) == 1 \
+                and isinstance(a.ops[0], (ast.LtE, ast.Lt, ast.Gt, ast.GtE)) and _int_const(m, a.comparators[0]) is not None:
+            classified[k] = ('counter', a.left.id)
+            consts.append(_int_const(m, a.comparators[0]))  # type: ignore[arg-type]
+            if a.left.id != 'tries':
+                budgets.add(a.left.id)
         else:
+            ctx.need(not any(isinstance(x, ast.Call) and pf.dotted(x.func) in PREDS for x in ast.walk(a)),
+                     f'{name}: classifier call inside an unrecognised test `{k}`')
             free.append(k)
     ctx.need(len(free) <= 6, f'{name}: too many unclassified predicates in handler ({free})')
+    ctx.need(len(budgets) <= 1, f'{name}: several budget counters ({sorted(budgets)})')
 
-    preds = ['is_limited_retries_error', 'is_rate_limit_error', 'is_transient_error']
+    # a dedicated budget counter must be monotone inside the loop: only `+= 1`
+    for b in sorted(budgets):
+        for n in ast.walk(loop):
+            tgt = None
+            if isinstance(n, ast.Assign):
+                tgt = [t for t in n.targets if isinstance(t, ast.Name) and t.id == b]
+            elif isinstance(n, (ast.AugAssign, ast.AnnAssign)) and isinstance(n.target, ast.Name) and n.target.id == b:
+                tgt = [n.target]
+            if not tgt:
+                continue
+            mono = isinstance(n, ast.AugAssign) and isinstance(n.op, ast.Add) and _int_const(m, n.value) is not None and _int_const(m, n.value) >= 1  # type: ignore[operator]
+            if not mono:
+                ctx.bad('R1', f'{cons}::budget {b} is monotone',
+                        f'`{pf.nsrc(n)}` re-arms the limited-retry budget `{b}` inside the retry loop: the number of retries granted to limited-retry errors is no longer '
+                        f'bounded by {LIMITED_RETRIES} over the whole call - e.g. the history L L L L T L L L L T ... (L = limited-retry only, T = transient) is retried for ever',
+                        m.path, n.lineno)
+    hi = max(consts) + 3
+    counters = ['tries'] + sorted(budgets)
+
     n_eval = 0
     fails = []
     incr_problems = []
-    delay_problems = []
-    for k in range(1, LIMITED_RETRIES + 4):  # failure index
-        for pv in absdom.valuations(preds):
-            for fv in absdom.valuations(free):
-                executed: List[ast.stmt] = []
+    retried_paths: Dict[Tuple[int, ...], Tuple[List[ast.stmt], dict]] = {}
+    for k in range(1, hi + 1):  # failure index = order class of `tries` against every constant it is compared with
+        for g in (range(0, hi + 1) if budgets else [0]):  # retries already granted out of the dedicated budget
+            for pv in absdom.valuations(PREDS):
+                for fv in absdom.valuations(free):
+                    executed: List[ast.stmt] = []
+                    start = {'tries': k - 1}
+                    for b in budgets:
+                        start[b] = inits[b] + g
 
-                def val(atom: ast.AST) -> bool:
-                    key = absdom.atom_key(atom)
-                    kind = classified.get(key)
-                    if kind in preds:
-                        return pv[kind]
-                    if kind == 'tries-bound':
-                        incs = sum(1 for s in executed if isinstance(s, ast.AugAssign) and pf.nsrc(s.target) == 'tries')
-                        tries = (k - 1) + incs
+                    def val(atom: ast.AST) -> bool:
+                        key = absdom.atom_key(atom)
+                        kind = classified.get(key)
+                        if kind is None:
+                            return fv[key]
+                        if kind[0] == 'pred':
+                            return pv[kind[1]]
+                        cname = kind[1]
+                        incs = sum(_int_const(m, s.value) or 0 for s in executed if isinstance(s, ast.AugAssign) and pf.nsrc(s.target) == cname and isinstance(s.op, ast.Add))
+                        cur = start[cname] + incs
                         op = atom.ops[0]  # type: ignore[attr-defined]
-                        c = atom.comparators[0].value  # type: ignore[attr-defined]
-                        return {ast.LtE: tries <= c, ast.Lt: tries < c, ast.Gt: tries > c, ast.GtE: tries >= c}[type(op)]
-                    return fv[key]
+                        c = _int_const(m, atom.comparators[0])  # type: ignore[attr-defined]
+                        return {ast.LtE: cur <= c, ast.Lt: cur < c, ast.Gt: cur > c, ast.GtE: cur >= c}[type(op)]
 
-                o = absdom.walk_block(exc_handler.body, val, executed)
-                n_eval += 1
-                T, R, L = pv['is_transient_error'], pv['is_rate_limit_error'], pv['is_limited_retries_error']
-                if limited:
-                    want_retry = T or R or (L and k <= LIMITED_RETRIES)
-                else:
-                    want_retry = T
-                got_retry = o.kind == 'fall'
-                if o.kind not in ('fall', 'raise') or (o.kind == 'raise' and o.node.exc is not None):  # type: ignore[union-attr]
-                    fails.append((k, pv, f'handler leaves by {o.kind}'))
-                elif got_retry != want_retry:
-                    fails.append((k, pv, 'retries' if got_retry else 're-raises'))
-                if got_retry:
-                    incs = [s for s in executed if isinstance(s, ast.AugAssign) and pf.nsrc(s.target) == 'tries']
-                    if not (len(incs) == 1 and isinstance(incs[0].op, ast.Add) and pf.nsrc(incs[0].value) == '1'):
-                        incr_problems.append((k, pv))
-    cons = f'{F}::{name}::except Exception'
+                    o = absdom.walk_block(exc_handler.body, val, executed)
+                    n_eval += 1
+                    T, R, L = pv['is_transient_error'], pv['is_rate_limit_error'], pv['is_limited_retries_error']
+                    got_retry = o.kind == 'fall'
+                    state = {'failure': k, **({'granted': g} if budgets else {}), **pv}
+                    if o.kind not in ('fall', 'raise') or (o.kind == 'raise' and o.node.exc is not None):  # type: ignore[union-attr]
+                        fails.append((state, f'handler leaves by {o.kind}'))
+                        continue
+                    if not limited:
+                        want: Optional[bool] = T
+                    elif T or R:
+                        want = True
+                    elif not L:
+                        want = False
+                    elif budgets:
+                        # dedicated budget: never more than five grants, and the first limited-retry error is retried
+                        want = False if g >= LIMITED_RETRIES else (True if g == 0 and k == 1 else None)
+                    else:
+                        want = k <= LIMITED_RETRIES
+                    if want is not None and got_retry != want:
+                        fails.append((state, 'retries' if got_retry else 're-raises'))
+                    if got_retry:
+                        incs = [s for s in executed if isinstance(s, ast.AugAssign) and pf.nsrc(s.target) == 'tries']
+                        if not (len(incs) == 1 and isinstance(incs[0].op, ast.Add) and pf.nsrc(incs[0].value) == '1'):
+                            incr_problems.append(state)
+                        for b in budgets:
+                            if L and not T and not R:
+                                bi = [s for s in executed if isinstance(s, ast.AugAssign) and pf.nsrc(s.target) == b]
+                                if len(bi) != 1:
+                                    fails.append((state, f'retries a limited-retry-only error without charging the budget `{b}` exactly once: the budget never runs out and such errors '
+                                                         f'are retried without bound;'))
+                        retried_paths.setdefault(tuple(id(s) for s in executed), (list(executed), state))
     if fails:
-        k, pv, what = fails[0]
-        ctx.bad('R1', cons, f'failure #{k} with classifier valuation {pv}: handler {what}, the statement requires the opposite '
-                f'({len(fails)} of {n_eval} table rows wrong)', m.path, exc_handler.lineno, extra=[(a, b, c) for a, b, c in fails[:10]])
+        state, what = fails[0]
+        ctx.bad('R1', cons, f'{state}: handler {what}' + (' the statement allows at most five such retries ' if what.endswith(';') else ', the statement requires the opposite ') +
+                f'({len(fails)} of {n_eval} table rows wrong)', m.path, exc_handler.lineno, extra=[(a, b) for a, b in fails[:10]])
     else:
-        ctx.ok('R1', cons, {'table_rows': n_eval, 'predicates': sorted(classified.values()), 'free_atoms': free})
+        ctx.ok('R1', cons, {'table_rows': n_eval, 'predicates': sorted(' '.join(v) for v in classified.values()), 'free_atoms': free, 'counters': counters})
     ctx.check(not incr_problems, 'R2', f'{F}::{name}::tries increment',
-              f'`tries` is not incremented exactly once on a retried failure (e.g. failure #{incr_problems[0][0]} {incr_problems[0][1]})' if incr_problems else '',
+              f'`tries` is not incremented exactly once on a retried failure (e.g. {incr_problems[0]})' if incr_problems else '',
               m.path, exc_handler.lineno)
 
-    # R2: what is slept on
-    ctx.need(len(after) == 1, f'{name}: expected exactly one statement after the try in the loop body')
-    st = after[0]
-    call = st.value if isinstance(st, ast.Expr) else None
-    if isinstance(call, ast.Await):
-        call = call.value
-    ctx.need(isinstance(call, ast.Call), f'{name}: statement after try is not a call')
+    # ---------------- R2: what is slept on, on every retried path
+    ctx.need(len(after) >= 1, f'{name}: no statement after the try in the loop body')
+    st = after[-1]
+    call = _sleep_call(st)
+    ctx.need(call is not None, f'{name}: last statement of the loop body is not a call')
+    ctx.need(all(isinstance(s, (ast.Assign, ast.AnnAssign)) for s in after[:-1]), f'{name}: unrecognised statements between the try and the sleep')
     cname = pf.dotted(call.func)
     cons2 = f'{F}::{name}::sleep'
-    if sleep_kind == 'asyncio':
-        ctx.need(cname == 'asyncio.sleep' and len(call.args) == 1, f'{name}: expected `await asyncio.sleep(x)`, found {pf.nsrc(st)}')
-        arg = call.args[0]
-        if isinstance(arg, ast.Name):
-            defs = pf.assignments(fn).get(arg.id, [])
-            ctx.need(len(defs) == 1, f'{name}: sleep argument {arg.id} has {len(defs)} definitions')
-            dexpr = defs[0]
-            # the definition must be executed in the handler on every retried path, after the increment
-            pos = [i for i, s in enumerate(exc_handler.body) if isinstance(s, ast.Assign) and s.value is dexpr]
-            inc_pos = [i for i, s in enumerate(exc_handler.body) if isinstance(s, ast.AugAssign) and pf.nsrc(s.target) == 'tries']
-            ctx.check(bool(pos) and bool(inc_pos) and pos[0] > inc_pos[0], 'R2', cons2 + '::order',
-                      'the delay is not computed unconditionally after `tries` is incremented in the handler', m.path, st.lineno)
+    params_ext = {a.arg for a in fn.args.args + fn.args.kwonlyargs} | ({evar} if evar else set())
+    loop_assigned = {t.id for n in ast.walk(loop) for t in (n.targets if isinstance(n, ast.Assign) else [n.target] if isinstance(n, (ast.AugAssign, ast.AnnAssign)) else [])
+                     if isinstance(t, ast.Name)}
+    problems: List[Tuple[str, int]] = []
+    declines: List[str] = []
+    n_paths = 0
+    ctx.need(retried_paths, f'{name}: no retried path found')
+    for executed, state in retried_paths.values():
+        n_paths += 1
+        env: Dict[str, cf.AV] = {}
+        if evar:
+            env[evar] = de.external(evar)
+        for v in loop_assigned - {'tries'}:
+            env[v] = cf.AV(-cf.INF, cf.INF, stale=True, origin=f'`{v}` as left by an earlier iteration (unbound on the first failure)')
+        offset = 0
+        last_def: Dict[str, ast.stmt] = {}
+        try:
+            for s in list(executed) + list(after[:-1]):
+                if isinstance(s, ast.AugAssign) and isinstance(s.target, ast.Name):
+                    if s.target.id == 'tries':
+                        if isinstance(s.op, ast.Add) and _int_const(m, s.value) == 1:
+                            offset += 1
+                        else:
+                            offset = -99
+                        continue
+                    tgt, value = s.target.id, ast.BinOp(left=ast.Name(id=s.target.id, ctx=ast.Load()), op=s.op, right=s.value)
+                elif isinstance(s, ast.Assign) and len(s.targets) == 1 and isinstance(s.targets[0], ast.Name):
+                    tgt, value = s.targets[0].id, s.value
+                elif isinstance(s, ast.AnnAssign) and isinstance(s.target, ast.Name) and s.value is not None:
+                    tgt, value = s.target.id, s.value
+                else:
+                    continue
+                try:
+                    env['tries'] = cf.AV(Fraction(max(offset, 0)), cf.INF, origin='the unbounded failure count `tries`')
+                    env[tgt] = de.eval(value, env, None, offset, params_ext)
+                    last_def[tgt] = s
+                except cf.Decline:
+                    env.pop(tgt, None)
+            # the value handed to the sleep
+            env['tries'] = cf.AV(Fraction(max(offset, 0)), cf.INF, origin='the unbounded failure count `tries`')
+            if cname in SLEEPS:
+                ctx.need(len(call.args) == 1 and not call.keywords, f'{name}: expected `{cname}(x)`, found {pf.nsrc(st)}')
+                v = de.eval(call.args[0], env, None, offset, params_ext)
+                where = st
+            else:
+                ctx.need(isinstance(call.func, ast.Name) and m.has_func(call.func.id), f'{name}: `{pf.nsrc(st)}` is neither a sleep nor a helper of this module')
+                h, sub, henv, hext, _key = de.bind_helper(call, env, None, offset, params_ext)
+                body = [s2 for s2 in h.body if not (isinstance(s2, ast.Expr) and isinstance(s2.value, ast.Constant))]
+                ctx.need(len(body) == 1 and _sleep_call(body[0]) is not None and pf.dotted(_sleep_call(body[0]).func) in SLEEPS  # type: ignore[union-attr]
+                         and len(_sleep_call(body[0]).args) == 1, f'{h.name}: body is not a single sleep call')  # type: ignore[union-attr]
+                v = sub.eval(_sleep_call(body[0]).args[0], henv, h, offset, hext)  # type: ignore[union-attr]
+                where = body[0]
+        except cf.Decline as e:
+            declines.append(f'{name}: the value slept on is not analysable on the path {state}: {e}')
+            continue
+        arg_names = [x.id for x in ast.walk(call) if isinstance(x, ast.Name)]
+        culprit = next((last_def[x] for x in arg_names if x in last_def), where)
+        units = ('; unit check: ' + '; '.join(dict.fromkeys(v.notes))) if v.notes else ''
+        msg = None
+        if offset != 1:
+            pass  # reported by the increment rule
+        if v.stale:
+            msg = f'on the retried path {state} the sleep uses {v.origin}: the delay is not computed for this failure'
+        elif v.band is not None and v.band[0] == Fraction(1, 1000):
+            if v.band[1] != offset:
+                msg = (f'on the retried path {state} the delay `{v.origin}` is computed before `tries` is incremented: the n-th retry waits the band of try n-1 '
+                       f'(half the documented delay)')
+        elif v.hi > max_s:
+            msg = (f'on the retried path {state} the value passed to the sleep (seconds) ranges over {v.show().replace(' s', '').replace(' ms', '')}; its upper bound {_fmt(v.hi)} s (from `{v.origin}`, '
+                   f'set by `{pf.nsrc(culprit)[:120]}`) exceeds the documented maximum of {_fmt(max_s)} s{units}'
+                   + (' - a value read off the exception / response is not clamped by min() against a bound in the same unit' if v.ext or v.notes else ''))
+        elif v.band is not None:
+            msg = (f'on the retried path {state} the value slept on is delay_ms_for_try(tries) scaled by {v.band[0]} instead of 1/1000: waits are '
+                   f'{_fmt(v.band[0] * 1000)}x the documented jittered band{units}')
+        elif v.excursion:
+            msg = f'on the retried path {state} the value slept on leaves the documented jittered band: {v.excursion}{units}'
         else:
-            dexpr = arg
-        ok = (isinstance(dexpr, ast.BinOp) and isinstance(dexpr.op, ast.Div)
-              and isinstance(dexpr.right, ast.Constant) and float(dexpr.right.value) == 1000.0
-              and isinstance(dexpr.left, ast.Call) and pf.dotted(dexpr.left.func) == 'delay_ms_for_try'
-              and [pf.nsrc(a) for a in dexpr.left.args] == ['tries'] and not dexpr.left.keywords)
-        ctx.check(ok, 'R2', cons2, f'sleep argument is `{pf.nsrc(dexpr)}`, expected delay_ms_for_try(tries) / 1000 with default bounds', m.path, st.lineno)
+            declines.append(f'{name}: on the path {state} the value slept on ranges over {v.show()} and is not recognisably the documented band (not decided)')
+            continue
+        if msg:
+            problems.append((msg, getattr(culprit, 'lineno', st.lineno)))
+    if problems:
+        msg, line = problems[0]
+        ctx.bad('R2', cons2, msg + (f' ({len(problems)} of {n_paths} retried paths)' if n_paths > 1 else ''), m.path, line)
+    elif declines:
+        raise AnalysisError(declines[0])
     else:
-        ctx.check(cname == sleep_kind and [pf.nsrc(a) for a in call.args] == ['tries'] and not call.keywords, 'R2', cons2,
-                  f'expected `{sleep_kind}(tries)`, found `{pf.nsrc(st)}`', m.path, st.lineno)
-        helper = m.func(sleep_kind)
-        body = [s for s in helper.body if not (isinstance(s, ast.Expr) and isinstance(s.value, ast.Constant))]
-        ctx.need(len(body) == 1 and isinstance(body[0], ast.Expr), f'{sleep_kind}: unrecognised body')
-        c2 = body[0].value
-        if isinstance(c2, ast.Await):
-            c2 = c2.value
-        ok = (isinstance(c2, ast.Call) and pf.dotted(c2.func) in ('time.sleep', 'asyncio.sleep') and len(c2.args) == 1
-              and pf.nsrc(c2.args[0]) in ('delay_ms_for_try(tries, base_delay_ms, max_delay_ms) / 1000.0', 'delay_ms_for_try(tries, base_delay_ms, max_delay_ms) / 1000'))
-        ctx.check(ok, 'R2', f'{F}::{sleep_kind}', f'helper sleeps on `{pf.nsrc(body[0])}`', m.path, helper.lineno)
+        ctx.ok('R2', cons2, {'retried_paths': n_paths, 'value': 'delay_ms_for_try(tries) / 1000 after the increment, on every path'})
     return n_eval
 
 
@@ -233,7 +379,78 @@ def _check_delay(ctx: Ctx, m: pf.Module):
     else:
         ctx.ok('R3', cons, {'try_counts': hi_try, 'exhaustive_by_clamp': exhaustive, 'samples': samples})
     ctx.extra_cov['delay_band_samples'] = samples
-    return hi_try
+    return hi_try, base, mx
+
+
+# ------------------------------------------------------------------------------------------------
+# R4
+# ------------------------------------------------------------------------------------------------
+
+
+def _chain_targets(m: pf.Module, fn: pf.FuncDef, e: ast.AST, ev: str, bound: Optional[Dict[str, Set[str]]] = None, depth: int = 0) -> Optional[Set[str]]:
+    """The attributes of the classified exception that `e` may evaluate to ('__cause__', '__context__', 'None', ...); None = not understood."""
+    bound = bound or {}
+    if depth > 5:
+        return None
+    if isinstance(e, ast.Constant) and e.value is None:
+        return {'None'}
+    if isinstance(e, ast.Attribute) and isinstance(e.value, ast.Name) and (e.value.id == ev or bound.get(e.value.id) == {'<e>'}):
+        return {e.attr}
+    if isinstance(e, ast.Name):
+        if e.id in bound:
+            return set(bound[e.id])
+        if e.id == ev:
+            return {'<e>'}
+        defs = pf.assignments(fn).get(e.id, [])
+        if not defs:
+            return None
+        out: Set[str] = set()
+        for d in defs:
+            if not isinstance(d, ast.expr):
+                return None
+            r = _chain_targets(m, fn, d, ev, bound, depth + 1)
+            if r is None:
+                return None
+            out |= r
+        return out
+    if isinstance(e, ast.IfExp):
+        a, b = _chain_targets(m, fn, e.body, ev, bound, depth + 1), _chain_targets(m, fn, e.orelse, ev, bound, depth + 1)
+        return None if a is None or b is None else a | b
+    if isinstance(e, ast.BoolOp):
+        out = set()
+        for v in e.values:
+            r = _chain_targets(m, fn, v, ev, bound, depth + 1)
+            if r is None:
+                return None
+            out |= r
+        return out
+    if isinstance(e, ast.Call) and pf.dotted(e.func) == 'getattr' and len(e.args) >= 2 and isinstance(e.args[1], ast.Constant) and isinstance(e.args[1].value, str):
+        base = _chain_targets(m, fn, e.args[0], ev, bound, depth + 1)
+        if base == {'<e>'}:
+            return {e.args[1].value} | ({'None'} if len(e.args) > 2 else set())
+        return None
+    if isinstance(e, ast.Call) and isinstance(e.func, ast.Name) and m.has_func(e.func.id) and not e.keywords:
+        h = m.func(e.func.id)
+        ps = [a.arg for a in h.args.args]
+        if len(ps) != len(e.args):
+            return None
+        hb: Dict[str, Set[str]] = {}
+        for p, a in zip(ps, e.args):
+            r = _chain_targets(m, fn, a, ev, bound, depth + 1)
+            if r is None:
+                return None
+            hb[p] = r
+        out = set()
+        rets = [r for r in pf.walk_shallow(h) if isinstance(r, ast.Return)]
+        if not rets:
+            return None
+        for r in rets:
+            rr = {'None'} if r.value is None else _chain_targets(m, h, r.value, '\0', hb, depth + 1)
+            if rr is None:
+                return None
+            out |= rr
+        return out
+    return None
 
 
 def _check_classifier(ctx: Ctx, m: pf.Module, name: str, follows_cause: bool):
@@ -242,13 +459,29 @@ def _check_classifier(ctx: Ctx, m: pf.Module, name: str, follows_cause: bool):
     cons = f'{F}::{name}'
     ctx.check(isinstance(last, ast.Return) and isinstance(last.value, ast.Constant) and last.value.value is False,
               'R4', cons + '::default', f'last statement is `{pf.nsrc(last)}`, expected `return False` (unknown errors are not retried)', m.path, last.lineno)
+    ev = fn.args.args[0].arg
+    rec = [c for c in pf.walk_shallow(fn) if isinstance(c, ast.Call) and pf.dotted(c.func) == name and len(c.args) == 1]
+    followed: Set[str] = set()
+    for c in rec:
+        a = c.args[0]
+        if isinstance(a, ast.Attribute) and isinstance(a.value, ast.Name) and a.value.id == ev and not a.attr.startswith('__'):
+            continue  # a component such as e.os_error: part of the policy table, not a chain walk
+        t = _chain_targets(m, fn, a, ev)
+        ctx.need(t is not None, f'{name}: recursive call `{pf.nsrc(c)}` on a value that is not understood')
+        followed |= t - {'None'}  # type: ignore[operator]
+    chain = {x for x in followed if x.startswith('__')}
     if follows_cause:
-        found = False
-        for st in fn.body:
-            if isinstance(st, ast.If) and pf.nsrc(st.test) == 'e.__cause__ is not None' and len(st.body) == 1 \
-                    and isinstance(st.body[0], ast.Return) and pf.nsrc(st.body[0].value) == f'{name}(e.__cause__)':
-                found = True
-        ctx.check(found, 'R4', cons + '::cause', 'no `if e.__cause__ is not None: return <self>(e.__cause__)` step: chained errors are not classified', m.path, fn.lineno)
+        if '__context__' in chain:
+            ctx.bad('R4', cons + '::cause', f'{name} also classifies an error by its implicit `__context__` (the exception that merely happened to be in flight): a permanent error '
+                    f'raised while a transient one was being handled - e.g. `except asyncio.TimeoutError: raise KeyError(k)` - is classified as transient and retried for ever '
+                    f'instead of being raised immediately', m.path, fn.lineno)
+        elif '__cause__' not in chain:
+            ctx.bad('R4', cons + '::cause', f'{name} never recurses into `e.__cause__`: chained errors (`raise X from <transient>`) are not classified', m.path, fn.lineno)
+        else:
+            ctx.need(chain == {'__cause__'}, f'{name}: follows {sorted(chain)} (not understood)')
+            ctx.ok('R4', cons + '::cause', 'recurses into e.__cause__ only')
+    else:
+        ctx.need(not chain, f'{name}: follows {sorted(chain)} although it is not a chain-following classifier')
 
 
 def _check_delegate(ctx: Ctx, m: pf.Module, name: str, target: str):
@@ -266,30 +499,359 @@ def _check_delegate(ctx: Ctx, m: pf.Module, name: str, target: str):
     ctx.check(ok, 'R5', f'{F}::{name}', f'does not simply delegate to {target}(…, f, *args, **kwargs)', m.path, fn.lineno)
 
 
+# ------------------------------------------------------------------------------------------------
+# R6: producer / consumer agreement on the classified fields
+# ------------------------------------------------------------------------------------------------
+
+
+def _imports(m: pf.Module) -> Dict[str, str]:
+    """local name -> absolute dotted origin (`import a.b.c` binds `a` to package a; relative imports are resolved against the module's package)."""
+    pkg = m.rel[len('hail/python/'):-3].split('/')[:-1] if m.rel.startswith('hail/python/') else []
+    out: Dict[str, str] = {}
+    for st in ast.walk(m.tree):
+        if isinstance(st, ast.Import):
+            for a in st.names:
+                if a.asname:
+                    out[a.asname] = a.name
+                else:
+                    out[a.name.split('.')[0]] = a.name.split('.')[0]
+        elif isinstance(st, ast.ImportFrom):
+            base = (st.module or '').split('.') if st.module else []
+            if st.level:
+                base = pkg[:len(pkg) - (st.level - 1)] + base
+            for a in st.names:
+                out[a.asname or a.name] = '.'.join(base + [a.name])
+    return out
+
+
+def _resolve_class(m: pf.Module, ref: str) -> Optional[Tuple[str, str]]:
+    """(repo-relative file, class name) when the (dotted) reference names a class defined in the repository's python tree."""
+    parts = ref.split('.')
+    imps = _imports(m)
+    if parts[0] in imps:
+        full = '.'.join([imps[parts[0]]] + parts[1:])
+    elif len(parts) == 1:
+        return (m.rel, ref) if any(c.name == ref for c in m.classes()) else None
+    else:
+        full = ref
+    if '.' not in full:
+        return None
+    rel = cf.module_rel_of(full)
+    if rel is None:
+        return None
+    return rel, parts[-1]
+
+
+def _subclasses_in(mod: pf.Module, base_ref: str) -> List[str]:
+    return [c.name for c in mod.classes() if any(pf.dotted(b) == base_ref for b in c.bases)]
+
+
+_site_cache: Dict[Tuple[str, str], List[str]] = {}
+_text_cache: Dict[str, str] = {}
+
+
+def _site_files(ctx: Ctx, cls_name: str) -> List[str]:
+    if (ctx.tier, cls_name) in _site_cache:
+        return _site_cache[(ctx.tier, cls_name)]
+    dirs = ['hail/python/hailtop']
+    if ctx.tier == 'thorough':
+        dirs += ['batch/batch', 'gear/gear', 'ci/ci', 'auth/auth', 'monitoring/monitoring', 'web_common/web_common']
+    out = []
+    for rel in pf.walk_py(dirs):
+        try:
+            if rel not in _text_cache:
+                _text_cache[rel] = read_repo(rel)
+            if cls_name in _text_cache[rel]:
+                out.append(rel)
+        except (AnalysisError, UnicodeDecodeError):
+            continue
+    _site_cache[(ctx.tier, cls_name)] = out
+    return out
+
+
+def _check_fields(ctx: Ctx, m: pf.Module) -> None:
+    # consumer side
+    reads: Dict[Tuple[str, str, str], Set[str]] = {}  # (file, class, attr) -> classifiers
+    tokens_case = False
+    for cn in CLASSIFIERS:
+        fn = m.func(cn)
+        for ref, attr, node in cf.classifier_reads(fn):
+            targets: List[Tuple[str, str]] = []
+            r = _resolve_class(m, ref)
+            if r is not None:
+                targets.append(r)
+            else:
+                # a library base class: its repository-defined subclasses are produced by repository code
+                for rel in ('hail/python/hailtop/httpx.py',):
+                    mm = pf.load(rel)
+                    for sub in _subclasses_in(mm, ref):
+                        targets.append((rel, sub))
+            for rel, cls in targets:
+                reads.setdefault((rel, cls, attr), set()).add(cn)
+        for c in ast.walk(fn):
+            if isinstance(c, ast.Constant) and isinstance(c.value, str) and c.value != c.value.lower():
+                tokens_case = True
+    ctx.need(reads, 'no classifier reads a field of a repository-defined exception class (idiom not recognised)')
+    for (rel, cls, attr), who in sorted(reads.items()):
+        dm = pf.load(rel)
+        cdef = dm.cls(cls)
+        init, amap, pos, has_kw = cf.init_attr_sources(cdef)
+        ctx.need(init is not None, f'{rel}::{cls}: no __init__')
+        lf_init = cf.LosslessFlow(dm, case_sensitive=tokens_case)
+        # a property of that name: follow it to the stored attribute
+        for pdef in [f for f in cdef.body if isinstance(f, ast.FunctionDef) and f.name == attr and 'property' in pf.decorator_names(f)]:
+            rets = [r for r in pf.walk_shallow(pdef) if isinstance(r, ast.Return) and r.value is not None]
+            ctx.need(rets, f'{rel}::{cls}.{attr}: property without return')
+            stored = set()
+            for r in rets:
+                fl = lf_init.classify(r.value, pdef)
+                if fl.kind == cf.LOSSY:
+                    ctx.bad('R6', f'{rel}::{cls}.{attr}::property', f'the property `{attr}` returns a reduced value ({fl.why}) while {sorted(who)} in utils.py classify the error by `e.{attr}`',
+                            dm.path, r.lineno)
+                ctx.need(fl.kind != cf.UNKNOWN, f'{rel}::{cls}.{attr}: property value not understood ({fl.why})')
+                if isinstance(r.value, ast.Attribute) and isinstance(r.value.value, ast.Name) and r.value.value.id == pdef.args.args[0].arg:
+                    stored.add(r.value.attr)
+            ctx.need(len(stored) == 1 or any(f.rule == 'R6' for f in ctx.findings), f'{rel}::{cls}.{attr}: property does not return a single stored attribute')
+            if len(stored) == 1:
+                attr_store = stored.pop()
+                ctx.need(attr_store in amap, f'{rel}::{cls}: `self.{attr_store}` is not assigned in __init__')
+                amap = dict(amap)
+                amap[attr] = amap[attr_store]
+        # which constructor parameter carries the attribute
+        if attr in amap:
+            fl = lf_init.classify(amap[attr], init)
+            src = amap[attr]
+            consi = f'{rel}::{cls}.__init__::self.{attr}'
+            if fl.kind == cf.LOSSY:
+                ctx.bad('R6', consi, f'`self.{attr} = {pf.nsrc(src)}` stores a reduced value ({fl.why}) while {sorted(who)} in utils.py classify the error by `e.{attr}`: '
+                        f'a failure whose distinguishing content is lost is classified as permanent and raised on its first occurrence', dm.path, src.lineno)
+                continue
+            ctx.need(fl.kind == cf.OK and isinstance(src, ast.Name) and src.id in pos + [a.arg for a in init.args.kwonlyargs],
+                     f'{consi}: `{pf.nsrc(src)}` is not a plain constructor parameter ({fl.why})')
+            param = src.id
+        else:
+            ctx.need(has_kw, f'{rel}::{cls}: attribute {attr} is neither assigned in __init__ nor can it be passed on through **kwargs')
+            param = attr
+        # producer side: every constructor site
+        n_sites = 0
+        for srel in _site_files(ctx, cls):
+            sm = pf.load(srel)
+            lf = cf.LosslessFlow(sm, case_sensitive=tokens_case)
+            for c in ast.walk(sm.tree):
+                if not isinstance(c, ast.Call):
+                    continue
+                d = pf.dotted(c.func)
+                if d is None or d.split('.')[-1] != cls:
+                    continue
+                rr = _resolve_class(sm, d)
+                if rr is None or rr != (rel, cls):
+                    continue
+                arg = None
+                for k in c.keywords:
+                    if k.arg == param:
+                        arg = k.value
+                if arg is None and param in pos and pos.index(param) < len(c.args) and not any(isinstance(a, ast.Starred) for a in c.args):
+                    arg = c.args[pos.index(param)]
+                host = sm.enclosing_func(c)
+                q = sm.qualname(host) if host is not None else '<module>'
+                conss = f'{srel}::{q}::{cls}.{attr}'
+                n_sites += 1
+                if arg is None:
+                    ctx.need(not any(k.arg is None for k in c.keywords), f'{conss}: arguments passed through ** (not analysed)')
+                    ctx.need(any(k.arg == 'status' for k in c.keywords) or attr == 'status', f'{conss}: the site passes neither `{param}` nor a status (synthetic error, not analysed)')
+                    ctx.bad('R6', conss, f'this constructor site builds the error from a response (it passes a status) but hands no `{param}` to {cls}(...): `e.{attr}` keeps its default and '
+                            f'{sorted(who)} in {F}, which decide on `e.{attr}`, can never recognise the failure - e.g. Google\'s 403 rateLimitExceeded is raised on its first occurrence '
+                            f'instead of being retried', sm.path, c.lineno)
+                    continue
+                fl = lf.classify(arg, host)
+                if fl.kind == cf.LOSSY:
+                    ctx.bad('R6', conss, f'the `{param}` handed to {cls}(...) is not the full response value: {fl.why}.  {sorted(who)} in {F} decide on `e.{attr}` '
+                            f'(e.g. `\'rateLimitExceeded\' in e.body` for Google\'s 403 throttling): a response whose distinguishing content falls outside what is kept is classified '
+                            f'as neither rate-limit nor transient and is raised on its first occurrence instead of being retried until it succeeds', sm.path, c.lineno)
+                elif fl.kind == cf.OK:
+                    ctx.ok('R6', conss, f'`{pf.nsrc(arg)[:60]}`: {fl.why}')
+                else:
+                    raise AnalysisError(f'{conss}: cannot decide whether `{pf.nsrc(arg)[:80]}` preserves the response value ({fl.why})')
+        ctx.need(n_sites >= 1, f'no constructor site of {cls} found for the field {attr}')
+
+
+# ------------------------------------------------------------------------------------------------
+# R7: rate-limit errors are transient errors (the sync helper asks only is_transient_error)
+# ------------------------------------------------------------------------------------------------
+
+
+def _check_subsumption(ctx: Ctx, m: pf.Module) -> int:
+    rl = m.func('is_rate_limit_error')
+    te = m.func('is_transient_error')
+    ev_r, ev_t = rl.args.args[0].arg, te.args.args[0].arg
+    ctx.need(ev_r == ev_t, 'classifiers name their parameter differently')
+    ev = ev_r
+
+    def body_of(fn):
+        return [s for s in fn.body if not isinstance(s, (ast.Import, ast.ImportFrom)) and not (isinstance(s, ast.Expr) and isinstance(s.value, ast.Constant))]
+    # classes mentioned by the rate-limit classifier, with their subclass relation
+    classes: List[str] = []
+    for c in ast.walk(rl):
+        if isinstance(c, ast.Call) and pf.dotted(c.func) == 'isinstance' and len(c.args) == 2 and pf.nsrc(c.args[0]) == ev:
+            d = pf.dotted(c.args[1])
+            ctx.need(d is not None, f'is_rate_limit_error: isinstance against `{pf.nsrc(c.args[1])}`')
+            if d not in classes:
+                classes.append(d)  # type: ignore[arg-type]
+    ctx.need(classes, 'is_rate_limit_error tests no exception class')
+    supers: Dict[str, Set[str]] = {c: {c} for c in classes}
+    for c in classes:
+        r = _resolve_class(m, c)
+        if r is not None:
+            cd = pf.load(r[0]).cls(r[1])
+            mm = pf.load(r[0])
+            for b in cd.bases:
+                bd = pf.dotted(b)
+                if bd is not None:
+                    supers[c].add(bd)
+                    supers[c].add(_imports(mm).get(bd.split('.')[0], bd.split('.')[0]) + bd[len(bd.split('.')[0]):])
+    # status constants and body tokens appearing in either classifier
+    statuses: Set[int] = set()
+    tokens: Set[str] = set()
+    sets: Dict[str, Set[int]] = {}
+    for fn in (rl, te):
+        for n in ast.walk(fn):
+            if isinstance(n, ast.Compare) and pf.nsrc(n.left) == f'{ev}.status' and len(n.ops) == 1:
+                rhs = n.comparators[0]
+                if isinstance(n.ops[0], (ast.Eq, ast.NotEq)) and isinstance(rhs, ast.Constant) and isinstance(rhs.value, int):
+                    statuses.add(rhs.value)
+                elif isinstance(n.ops[0], (ast.In, ast.NotIn)):
+                    if isinstance(rhs, ast.Name):
+                        s = cf.int_set_of(m, rhs.id)
+                        if s is not None:
+                            sets[rhs.id] = s
+                            statuses |= s
+                    elif isinstance(rhs, (ast.Tuple, ast.Set, ast.List)) and all(isinstance(x, ast.Constant) and isinstance(x.value, int) for x in rhs.elts):
+                        statuses |= {x.value for x in rhs.elts}  # type: ignore[attr-defined]
+            if isinstance(n, ast.Compare) and len(n.ops) == 1 and isinstance(n.ops[0], ast.In) and isinstance(n.left, ast.Constant) and isinstance(n.left.value, str) \
+                    and pf.nsrc(n.comparators[0]) == f'{ev}.body':
+                tokens.add(n.left.value)
+    OTHER = -1
+
+    class Undecided(Exception):
+        pass
+
+    def make_val(cls: str, status: int, tok: Dict[str, bool], free: Dict[str, bool], free_keys: List[str]):
+        def val(atom: ast.AST) -> bool:
+            if isinstance(atom, ast.Call) and pf.dotted(atom.func) == 'isinstance' and len(atom.args) == 2 and pf.nsrc(atom.args[0]) == ev:
+                ts = atom.args[1].elts if isinstance(atom.args[1], ast.Tuple) else [atom.args[1]]
+                return any(pf.dotted(t) in supers[cls] or pf.dotted(t) in ('Exception', 'BaseException') for t in ts)
+            if isinstance(atom, ast.Compare) and pf.nsrc(atom.left) == f'{ev}.status' and len(atom.ops) == 1:
+                rhs, op = atom.comparators[0], atom.ops[0]
+                if isinstance(op, (ast.Eq, ast.NotEq)) and isinstance(rhs, ast.Constant):
+                    r = status == rhs.value
+                    return r if isinstance(op, ast.Eq) else not r
+                if isinstance(op, (ast.In, ast.NotIn)):
+                    if isinstance(rhs, ast.Name) and rhs.id in sets:
+                        r = status in sets[rhs.id]
+                    elif isinstance(rhs, (ast.Tuple, ast.Set, ast.List)) and all(isinstance(x, ast.Constant) for x in rhs.elts):
+                        r = status in {x.value for x in rhs.elts}  # type: ignore[attr-defined]
+                    else:
+                        raise Undecided(pf.nsrc(atom))
+                    return r if isinstance(op, ast.In) else not r
+                raise Undecided(pf.nsrc(atom))
+            if isinstance(atom, ast.Compare) and len(atom.ops) == 1 and isinstance(atom.ops[0], ast.In) and isinstance(atom.left, ast.Constant) \
+                    and pf.nsrc(atom.comparators[0]) == f'{ev}.body' and atom.left.value in tok:
+                return tok[atom.left.value]
+            k = absdom.atom_key(atom)
+            if k not in free:
+                free_keys.append(k)
+                raise KeyError(k)
+            return free[k]
+        return val
+
+    def run(fn, cls, status, tok) -> Tuple[bool, bool, List[str]]:
+        """(may return False, may return True, free atoms) over all valuations of the atoms the abstract state does not fix."""
+        keys: List[str] = []
+        outs: Set[bool] = set()
+        while True:
+            again = False
+            outs = set()
+            for fv in absdom.valuations(keys):
+                try:
+                    o = absdom.walk_block(body_of(fn), make_val(cls, status, tok, fv, keys))
+                except KeyError:
+                    again = True
+                    break
+                if o.kind != 'return' or not isinstance(o.node.value, (ast.Constant, ast.Call)):  # type: ignore[union-attr]
+                    raise Undecided(f'{fn.name} leaves by {o.kind}')
+                rv = o.node.value  # type: ignore[union-attr]
+                if isinstance(rv, ast.Constant) and isinstance(rv.value, bool):
+                    outs.add(rv.value)
+                else:
+                    outs |= {True, False}  # recursion into a chained / component exception: unknown
+            if not again:
+                break
+            if len(keys) > 14:
+                raise Undecided('too many free atoms')
+        return (False in outs), (True in outs), keys
+
+    n = 0
+    cons = f'{F}::is_rate_limit_error implies is_transient_error'
+    counter = None
+    try:
+        for cls in classes:
+            for status in sorted(statuses) + [OTHER]:
+                for tv in absdom.valuations(sorted(tokens)):
+                    n += 1
+                    r_false, r_true, _ = run(rl, cls, status, tv)
+                    if not r_true:
+                        continue
+                    t_false, t_true, keys = run(te, cls, status, tv)
+                    if t_false and counter is None:
+                        counter = (cls, status, tv, keys)
+    except Undecided as e:
+        raise AnalysisError(f'R7: classifier shape not understood: {e}')
+    if counter is not None:
+        cls, status, tv, keys = counter
+        ctx.bad('R7', cons, f'an exception of class {cls} with status {"<any other>" if status == OTHER else status} and body tokens {tv} is accepted by is_rate_limit_error but '
+                f'is_transient_error can return False for it: sync_retry_transient_errors (which asks only is_transient_error) raises this rate-limit failure on its first occurrence '
+                f'instead of retrying it until it succeeds', m.path, rl.lineno)
+    else:
+        ctx.ok('R7', cons, {'abstract_states': n, 'classes': classes, 'statuses': sorted(statuses), 'tokens': sorted(tokens)})
+    return n
+
+
 def run(ctx: Ctx) -> None:
     ctx.level = 'proof'
     ctx.exhaustive = True
-    ctx.explanation = ('Truth-table evaluation of the extracted `except Exception` handlers over all valuations of the classifier predicates x failure '
-                       'indices 1..8, and exhaustive interval evaluation of delay_ms_for_try for every try count up to the clamp; no repository code is run.')
+    ctx.explanation = ('Truth-table evaluation of the extracted `except Exception` handlers over all valuations of the classifier predicates x order classes of the counters, '
+                       'exhaustive interval evaluation of delay_ms_for_try for every try count up to the clamp, interval + unit evaluation of every definition reaching the sleep, '
+                       'lossless-dataflow classification from the HTTP response to the classified exception fields, implication between the classifiers over a finite domain; '
+                       'no repository code is run.')
     ctx.rule('R1', 'retry loop handler re-raises iff not transient and not rate-limit and not (limited-retry and failure index <= 5); '
-                   'sync variant re-raises iff not transient; handlers ahead of it only re-raise', 4)
-    ctx.rule('R2', 'tries is incremented exactly once per retried failure and the loop sleeps delay_ms_for_try(tries)/1000 with default bounds', 5)
+                   'sync variant re-raises iff not transient; handlers ahead of it only re-raise; a dedicated budget counter is monotone', 4)
+    ctx.rule('R2', 'tries is incremented exactly once per retried failure and on every retried path the loop sleeps exactly delay_ms_for_try(tries)/1000 '
+                   '(interval + unit analysis of all reaching definitions)', 4)
     ctx.rule('R3', 'delay_ms_for_try(tries) in [min(C//2,max), min(C,max)], C = base*2^tries, never above max_delay_ms', 1)
-    ctx.rule('R4', 'error classifiers default to False and follow __cause__ chains', 5)
+    ctx.rule('R4', 'error classifiers default to False and follow __cause__ chains only', 5)
     ctx.rule('R5', 'public retry wrappers delegate to the analysed loop', 2)
+    ctx.rule('R6', 'every exception field a classifier reads is written at every constructor site from the full response value', 3)
+    ctx.rule('R7', 'is_rate_limit_error implies is_transient_error over exception class x status x body tokens', 1)
     ctx.assume('membership of concrete exception classes in transient / rate-limit / limited-retry is a policy table and is not decided')
-    ctx.assume('random.randrange(n) returns an integer in [0, n-1]; asyncio.sleep(d) waits d seconds')
+    ctx.assume('random.randrange(n) returns an integer in [0, n-1]; asyncio.sleep(d) / time.sleep(d) wait d seconds')
+    ctx.assume('aiohttp.ClientResponseError.__init__ stores the status / message / headers keyword arguments unchanged')
     m = pf.load(F)
     ctx.unit('files')
-    n = _check_loop(ctx, m, 'retry_transient_errors_with_debug_string', 'asyncio', limited=True)
-    n += _check_loop(ctx, m, 'sync_retry_transient_errors', 'sync_sleep_before_try', limited=False)
+    t, base, mx = _check_delay(ctx, m)
+    ctx.unit('delay_try_counts', t)
+    de = cf.DelayEval(m, band_lo_ms=min(base, mx), band_hi_ms=mx, band1_hi_ms=min(2 * base, mx), base_ms=base)
+    max_s = Fraction(mx, 1000)
+    n = _check_loop(ctx, m, 'retry_transient_errors_with_debug_string', True, de, max_s)
+    n += _check_loop(ctx, m, 'sync_retry_transient_errors', False, de, max_s)
     ctx.unit('decision_table_rows', n)
     ctx.unit('functions', 2)
-    t = _check_delay(ctx, m)
-    ctx.unit('delay_try_counts', t)
     _check_classifier(ctx, m, 'is_transient_error', True)
     _check_classifier(ctx, m, 'is_limited_retries_error', True)
     _check_classifier(ctx, m, 'is_rate_limit_error', False)
     _check_delegate(ctx, m, 'retry_transient_errors', 'retry_transient_errors_with_debug_string')
     _check_delegate(ctx, m, 'retry_transient_errors_with_delayed_warnings', 'retry_transient_errors_with_debug_string')
     ctx.unit('functions', 6)
+    _check_fields(ctx, m)
+    ctx.unit('files', 2)
+    k = _check_subsumption(ctx, m)
+    ctx.unit('classifier_abstract_states', k)
